@@ -233,7 +233,8 @@ pub fn run(real: &Program, prog: &Prog, cap: u64) -> LockResult {
             break;
         }
         let (mi, off) = m.ip.unwrap();
-        let depth_before = m.stack.len();
+        // depth relative to the current frame (what a per-method static analysis computes)
+        let depth_before = m.stack.len() - m.frames.last().map(|f| f.base).unwrap_or(0);
         match res.depths.get(&(mi, off)) {
             Some(d) if *d != depth_before && res.depth_conflict.is_none() => {
                 res.depth_conflict = Some(format!("#{}+{} executed with operand depth {} and {}", mi, off, d, depth_before));
